@@ -1,5 +1,6 @@
 import RedisVerif.Lemmas.OuterUnique
 import RedisVerif.Lemmas.ReachRestart
+import RedisVerif.Model.Lattice
 
 /-!
 # C07 over the values a cluster can produce — the hypotheses of `rv_merge_comm` /
@@ -59,7 +60,7 @@ theorem TieInv.of_run {c : Cluster} (hr : RInv c) (ho : OInv c) : TieInv c :=
 theorem TieInv.of_restarts {c : Cluster} (h : XInv c) : TieInv c :=
   ⟨h.wf, h.sent_wf, h.uniq, h.stored, h.func⟩
 
-theorem gcar_of_reach' {c : Cluster} (hr : TieInv c) {k : Nat} {v : RV}
+theorem gcar_of_reach_gen {c : Cluster} (hr : TieInv c) {k : Nat} {v : RV}
     (h : Reach c k v) : GCar c k v := by
   have ho := hr
   induction h with
@@ -90,9 +91,9 @@ theorem tieOk_of_kind_ne {a b : Crdt} {sa sb : Stamp} (hk : a.kind ≠ b.kind) (
   cases a <;> cases b <;> simp [tieOk, Crdt.kind] at * <;> exact hs
 
 theorem gcar_of_reach {c : Cluster} (hr : RInv c) (ho : OInv c) {k : Nat} {v : RV}
-    (h : Reach c k v) : GCar c k v := gcar_of_reach' (TieInv.of_run hr ho) h
+    (h : Reach c k v) : GCar c k v := gcar_of_reach_gen (TieInv.of_run hr ho) h
 
-theorem tie_of_gcar' {c : Cluster} (hr : TieInv c) {k : Nat} {a b : RV}
+theorem tie_of_gcar_gen {c : Cluster} (hr : TieInv c) {k : Nat} {a b : RV}
     (ha : GCar c k a) (hb : GCar c k b) : TieConsistent a b := by
   have ho := hr
   unfold TieConsistent
@@ -130,7 +131,7 @@ theorem tie_of_gcar' {c : Cluster} (hr : TieInv c) {k : Nat} {a b : RV}
 
 theorem tie_of_gcar {c : Cluster} (hr : RInv c) (ho : OInv c) {k : Nat} {a b : RV}
     (ha : GCar c k a) (hb : GCar c k b) : TieConsistent a b :=
-  tie_of_gcar' (TieInv.of_run hr ho) ha hb
+  tie_of_gcar_gen (TieInv.of_run hr ho) ha hb
 
 /-! ## the theorems over executions -/
 
@@ -229,12 +230,12 @@ theorem reachableR_tie_consistent (n : Nat) (causal : Bool) (evs : List REv)
     (ha : Reach (execR n causal evs) k a) (hb : Reach (execR n causal evs) k b) :
     TieConsistent a b :=
   have h := execR_inv n causal evs hv
-  tie_of_gcar' h (gcar_of_reach' h ha) (gcar_of_reach' h hb)
+  tie_of_gcar_gen h (gcar_of_reach_gen h ha) (gcar_of_reach_gen h hb)
 
 theorem reachableR_wf (n : Nat) (causal : Bool) (evs : List REv)
     (hv : RecoversFirst (init n causal) evs) (k : Nat) (a : RV)
     (ha : Reach (execR n causal evs) k a) : a.WF :=
-  (gcar_of_reach' (execR_inv n causal evs hv) ha).1
+  (gcar_of_reach_gen (execR_inv n causal evs hv) ha).1
 
 /-- **C07 (commutativity) over reachable values, crashes included — no tie hypothesis.** -/
 theorem reachableR_merge_comm (n : Nat) (causal : Bool) (evs : List REv)
@@ -246,7 +247,7 @@ theorem reachableR_merge_comm (n : Nat) (causal : Bool) (evs : List REv)
 
 theorem reachR_kind {c : Cluster} (h : TieInv c) {k K : Nat} (hK : OneKind c k K) {v : RV}
     (hr : Reach c k v) : v.crdt.kind = K := by
-  obtain ⟨m, hm, hk, hp⟩ := (gcar_of_reach' h hr).2.2
+  obtain ⟨m, hm, hk, hp⟩ := (gcar_of_reach_gen h hr).2.2
   have := hK m hm hk
   have h2 : m.val.crdt.kind = v.crdt.kind := congrArg Prod.snd hp
   rw [← h2]; exact this
@@ -325,6 +326,18 @@ theorem empty_hwrite_breaks_tie :
     (∃ a b, (exec 1 false emptyHwriteRun).sent.map (·.val) = [a, b] ∧ a.ts = b.ts ∧
       ¬ TieConsistent a b ∧ obs (RV.merge a b) ≠ obs (RV.merge b a)) := by
   refine ⟨by decide, _, _, rfl, ?_⟩
+  decide
+
+/-- the counter / set kinds are NOT produced by any actor (no command maps to them; `Reach`
+    contains only strings and hashes), only by the public constructor
+    `ReplicatedValue::with_crdt(crdt, replica)`, which stamps EVERY value `(0, replica)`: two values
+    of different kinds built by one replica through it are tie-inconsistent and merge
+    order-dependently.  Not a violation of C07 (no replica produces them) — it is why the
+    `reachable_*` theorems are stated over `Reach` and not over "everything the API can build". -/
+theorem with_crdt_cross_kind_not_comm :
+    let a := RV.withCrdt (.gcounter [(1, 2)]) 1
+    let b := RV.withCrdt (.gset [7]) 1
+    a.WF ∧ b.WF ∧ ¬ TieConsistent a b ∧ obs (RV.merge a b) ≠ obs (RV.merge b a) := by
   decide
 
 /-! ## non-vacuity: a history with every op kind, a tie in time across replicas and a cross-kind
